@@ -157,6 +157,27 @@ pub fn main(tier: Tier, seed: u64) -> i32 {
         }
     }
     rep.set("online_reflection", json!({"runs": refl.len(), "detected": refl_detected}));
+    // a later chunk of garbled gates replaced by the previous chunk (same sizes, same sender)
+    let mut chunk_replay = 0u64;
+    for cfg in cfgs.iter().filter(|c| c.case.circ.and_count() > 64) {
+        for m in cfg.honest.msgs.iter().filter(|m| m.from == cfg.corrupted && m.label == "preprocessed gates" && m.ord >= 1) {
+            let Some(prev) = cfg.honest.msgs.iter().find(|e| e.from == m.from && e.to == m.to && e.label == m.label && e.ord + 1 == m.ord) else { continue };
+            let mut bytes = (*prev.bytes).clone();
+            // the last chunk is shorter: cut the previous one to the same number of gates
+            if bytes.len() > m.bytes.len() && m.bytes.len() >= 8 {
+                let per_gate = (prev.bytes.len() - 8) / u64::from_le_bytes(prev.bytes[..8].try_into().unwrap()).max(1) as usize;
+                let gates = (m.bytes.len() - 8) / per_gate.max(1);
+                bytes.truncate(8 + gates * per_gate);
+                bytes[..8].copy_from_slice(&(gates as u64).to_le_bytes());
+            }
+            let r = run_faults(cfg, vec![crate::adv::send_fault(m, Arc::new(bytes))], vec![], false, 0).0;
+            chunk_replay += 1;
+            if r.outcomes[m.to].0 != "Err" {
+                rep.violation("undetected:replayed:preprocessed gates", format!("{}: chunk #{} of the garbled gates replaced by chunk #{} -> p{}:{}({})", cfg.name, m.ord, prev.ord, m.to, r.outcomes[m.to].0, r.outcomes[m.to].1), json!({"kind":"reflect","case":cfg.case,"corrupted":cfg.corrupted,"seed":cfg.seed,"label":"preprocessed gates (chunk replay)"}));
+            }
+        }
+    }
+    rep.set("garbled_chunk_replays", json!(chunk_replay));
     rep.evaluations = j.evaluations + tap_cases.len() as u64 + refl.len() as u64;
     rep.distinct_nontrivial = j.nontrivial.len() as u64 + tap_detected;
     if rep.exhaustive.is_none() {
